@@ -6352,6 +6352,7 @@ static size_t ZSTD_CCtx_init_compressStream2(ZSTD_CCtx* cctx,
         if (cctx->mtctx == NULL) {
             DEBUGLOG(4, "ZSTD_compressStream2: creating new mtctx for nbWorkers=%u",
                         params.nbWorkers);
+            RETURN_ERROR_IF(cctx->staticSize, memory_allocation, "static CCtx can't create a multithreaded context");
             cctx->mtctx = ZSTDMT_createCCtx_advanced((U32)params.nbWorkers, cctx->customMem, cctx->pool);
             RETURN_ERROR_IF(cctx->mtctx == NULL, memory_allocation, "NULL pointer!");
         }
